@@ -81,6 +81,8 @@ CONFIGS = [
     {"defaults": False, "init": 100000, "min": 50000, "max": 200000000},
     {"defaults": False, "init": 1000000, "min": 100000, "max": 1000000},      # starts at its maximum: only the loss side can move it
     {"defaults": False, "init": 300000, "min": 300000, "max": 2000000},       # starts at its minimum
+    {"defaults": False, "init": 80000000, "min": 60000000, "max": 100000000}, # the whole range above the default maximum (50 Mbit/s)
+    {"defaults": False, "init": 2000, "min": 1000, "max": 3000},              # ... and below the default minimum (5 kbit/s)
 ]
 PACERS = ["rec", "noop", "leaky", "default"]
 FBS = ["twcc", "rfc8888"]
